@@ -21,9 +21,9 @@ Tables     : Gen/Dispatch.lean   (built-in pairs, lookup-error names and formats
 Lemmas     : Proofs/Obj/Dispatch{Lookup,Call,History,Main}.lean
 
 Every theorem quantifies over ALL parameters `env` (codec / validator behaviour), ALL exports
-(declarations; `NamedIfaces`: interface names are non-empty), ALL histories `ops` of calls and
-Deferred resolutions (any length, any interleaving, any behaviour of user code) and ALL
-positions `k` in the history.  `run env ex ops` is the code model's trace; `eventsOf k` selects
+(declarations - since 2026-09-30 also interfaces without a name: no `NamedIfaces` hypothesis any more),
+ALL histories `ops` of calls, Deferred resolutions, `exportObject` and `unexportObject` operations (any
+length, any interleaving, any behaviour of user code) and ALL positions `k` in the history.  `run env ex ops` is the code model's trace; `eventsOf k` selects
 the events of call number `k` (the operation at position `k`).
 -/
 import TxdbusModel.Proofs.Obj.DispatchMain
@@ -863,6 +863,51 @@ example : LibEnvOK Example.propEnv Example.propLib :=
 
 end PropsComposition
 
+/-! ## 6e. Extension 2026-09-30: interfaces without a name
+
+Until this extension every theorem carried `NamedIfaces` / `HistoryNamed` ("declared interface names
+are non-empty"), because `_searchCache` has a second branch for a false `interfaceName` that the
+lemma `resolveImpl_eq` did not cover.  The spec's `bound` now says what is bound to a member of an
+interface declared as `DBusInterface('')` (`decoratedName` / `decoratedAnyIn`), `resolveImpl_eq` is
+proved for every name, and NO theorem of this file has the hypothesis any more. -/
+
+/-- `executeMethod`'s resolution (`dbus_<member>`, the per-class caches in `__mro__` order, dict
+order inside a cache, `getattr(self, f.__name__)`, the foreign-decorator rule) is the spec's `bound`
+for EVERY interface name; for the empty name the decorator table is searched without regard to the
+interface the functions name: the first class of the chain that decorates a function for the
+member, its interfaces in the order its body first mentions them, the last function for the first
+such interface that has one. -/
+theorem empty_interface_name_binding (o : Obj) (iname member : Str) :
+    resolveImpl o iname member = bound o iname member ∧
+    decorated o [] member =
+      (o.classes.findSome? fun c => decoratedAnyIn c.attrs member).bind (attr o) := by
+  refine ⟨resolveImpl_eq o iname member, ?_⟩
+  unfold decorated decoratedName
+  simp only [ne_eq, not_true_eq_false, if_false]
+  cases o.classes.findSome? (fun c => decoratedAnyIn c.attrs member) <;> rfl
+
+namespace Example
+
+/-- `dbusInterfaces = [DBusInterface('', Method('one', '', 's')), ...]`; the class body decorates
+`f1` for (org.x, one), `f2` for (org.b, one), `f3` for (org.x, one), in this order -/
+def namelessObj : Obj :=
+  { classes := [{ ifaces := some [{ name := [], methods := [("one".toList, { name := "one".toList, sigIn := [], sigOut := ['s'], nret := 1 })] }],
+                  attrs := [("f1".toList, { id := 1, deco := some ("org.x".toList, "one".toList), params := ["self".toList] }),
+                            ("f2".toList, { id := 2, deco := some ("org.b".toList, "one".toList), params := ["self".toList] }),
+                            ("f3".toList, { id := 3, deco := some ("org.x".toList, "one".toList), params := ["self".toList] })] }] }
+
+end Example
+
+/-- Witness (decide; the same scenario was run on the real code): a call of `one` without an
+interface on an object whose first interface with that member has no name runs `f3` - `org.x` is
+the first interface the class body mentions, `f3` its last function decorated for `one`. -/
+theorem empty_name_witness :
+    invocations (eventsOf 0 (run (Example.envWith fixRepaired) [("/a".toList, Example.namelessObj)]
+      [.call { Example.call with iface := none } (fun _ => .value (.single 7))]).2) = [(3, [], none)] ∧
+    bound Example.namelessObj [] "one".toList =
+      some { id := 3, deco := some ("org.x".toList, "one".toList), params := ["self".toList] } := by
+  decide
+
 /-! ## 7. The hypotheses are satisfiable -/
 
 example : NamedIfaces Example.exports := by unfold NamedIfaces; decide
@@ -885,16 +930,13 @@ example :
        .call { Example.call with serial := 6 } (fun _ => .deferred),
        .resolve 0 (.value (.single 42))]).2)).length = 1 := by
   refine (deferred_after_unexport_one_reply (Example.envWith fixRepaired) (fun _ => rfl) Example.exports _
-    ?_ 0 1 3 Example.call (fun _ => .deferred) rfl rfl
+    0 1 3 Example.call (fun _ => .deferred) rfl rfl
     { id := 1, deco := none, params := ["self".toList, "dbusCaller".toList] }
     { name := "one".toList, sigIn := [], sigOut := ['s'], nret := 1 } (by decide) rfl (by decide) rfl (by decide)
     (.value (.single 42)) rfl ?_).2.2.1
-  · apply historyNamed_of
-    · unfold NamedIfaces; decide
-    · intro path o h; simp at h
-  · intro i h1 h2 r
-    have : i = 1 ∨ i = 2 := by omega
-    rcases this with h | h <;> subst h <;> simp
+  intro i h1 h2 r
+  have : i = 1 ∨ i = 2 := by omega
+  rcases this with h | h <;> subst h <;> simp
 
 example : TextTotal (Example.envWith fixRepaired) := fun _ => rfl
 
@@ -936,6 +978,8 @@ end Txdbus.Obj
 #print axioms Txdbus.Obj.properties_lookup_errors
 #print axioms Txdbus.Obj.builtin_table_shape
 #print axioms Txdbus.Obj.properties_witness
+#print axioms Txdbus.Obj.empty_interface_name_binding
+#print axioms Txdbus.Obj.empty_name_witness
 #print axioms Txdbus.Obj.result_encoding
 #print axioms Txdbus.Obj.unencodable_value_one_error
 #print axioms Txdbus.Obj.error_reply_name
